@@ -816,7 +816,10 @@ func runChainStore(t *testing.T, beh CSBehaviour, idx int, rep *vh.Report, dir s
 			}
 			codeD, leafD, extraD, errD := readEntry(tw.d, s.Args.Via, s.Args.Index, size)
 			if errD != nil || codeD != 200 {
-				t.Fatalf("direct instance read failed: %d %v", codeD, errD)
+				// the default (in-backend) mode is the repository's code too: an in-tree read that is not answered 200
+				// with a well-formed body is a violation of what C06 / C07 / C14 all presuppose, not a harness failure
+				viol(n, "direct-read:"+s.Args.Via, fmt.Sprintf("the default-mode instance did not serve stored entry %d (tree size %d): status %d %v", s.Args.Index, size, codeD, errD))
+				continue
 			}
 			ctx, cancel := context.WithCancel(context.Background())
 			if s.Args.Fault != "none" {
@@ -868,7 +871,10 @@ func runChainStore(t *testing.T, beh CSBehaviour, idx int, rep *vh.Report, dir s
 			size := tw.d.Env.Backend.Size()
 			codeD, entsD, errD := readRange(context.Background(), tw.d, s.Args.Index, s.Args.To)
 			if errD != nil || codeD != 200 || len(entsD) != s.Args.To-s.Args.Index+1 {
-				t.Fatalf("direct instance range read failed: %d %v (%d entries, tree %d)", codeD, errD, len(entsD), size)
+				// the default mode is the repository's code too: an in-tree range (well below the batch limit) that is
+				// not served completely with 200 is a violation of C07's range law, not a harness failure
+				viol(n, "direct-readrange", fmt.Sprintf("the default-mode instance did not serve the in-tree range [%d, %d] of a tree of %d completely: status %d, %d entries, %v", s.Args.Index, s.Args.To, size, codeD, len(entsD), errD))
+				continue
 			}
 			ctx, cancel := context.WithCancel(context.Background())
 			if s.Args.Fault != "none" {
@@ -957,7 +963,8 @@ func runChainStore(t *testing.T, beh CSBehaviour, idx int, rep *vh.Report, dir s
 			for _, via := range []string{"entries", "proof"} {
 				codeD, leafD, extraD, errD := readEntry(tw.d, via, i, size)
 				if errD != nil || codeD != 200 {
-					t.Fatalf("direct instance read failed: %d %v", codeD, errD)
+					viol(n, "direct-read:"+via, fmt.Sprintf("the default-mode instance did not serve stored entry %d (tree size %d): status %d %v", i, size, codeD, errD))
+					continue
 				}
 				codeX, leafX, extraX, errX := readEntry(tw.x, via, i, size)
 				switch {
@@ -1047,21 +1054,19 @@ func TestChainStore(t *testing.T) {
 	}
 	rep := vh.NewReport("cctfe-chainstore", "behaviours of ChainStore.tla (submissions, sequencing, legacy full-chain entries, reads through both read endpoints, detached cache writes fired at chosen points, storage faults / dropped / damaged rows) replayed on two real instances (direct and external chain storage with the real LRU/noop cache behind a gate) fed the same submissions; the external instance stores through the layer the behaviour names (Dialect): the in-memory stand-in, or the repository's MySQL / PostgreSQL IssuanceChainStorage on an in-process database/sql driver with the dialect's semantics and fault classes (statement error, cancellation in flight / after the commit, lost connection, database down, result-set error); every served entry compared byte for byte, every answer of the storage layer and the path the database took (inserted / duplicate-key error / conflict skipped) compared with the specification; non-trivial = distinct (storage layer, cache capacity, set of (operation, status, fault) triples and de-duplication paths >= 3)")
 	dir := t.TempDir()
+	// one goroutine per behaviour behind a semaphore: a t.Fatalf inside a behaviour (an infrastructure failure) ends
+	// that goroutine only and can never leave the feeder blocked
 	var wg sync.WaitGroup
-	ch := make(chan int)
-	for k := 0; k < runtime.NumCPU(); k++ {
-		wg.Add(1)
-		go func() {
-			defer wg.Done()
-			for i := range ch {
-				runChainStore(t, behs[i], i, rep, dir)
-			}
-		}()
-	}
+	sem := make(chan struct{}, runtime.NumCPU())
 	for i := range behs {
-		ch <- i
+		sem <- struct{}{}
+		wg.Add(1)
+		go func(i int) {
+			defer wg.Done()
+			defer func() { <-sem }()
+			runChainStore(t, behs[i], i, rep, dir)
+		}(i)
 	}
-	close(ch)
 	wg.Wait()
 	rep.Replayed = len(behs)
 	if len(behs) > 0 {
